@@ -421,6 +421,9 @@ def check_robustness(ctx, rng):
                 run_batch(ctx, fe, state, items[b0:b0 + batch])
 
 
+BATCHES = [0]
+
+
 def run_batch(ctx, fe, state, items):
     res = {'viol': []}
 
@@ -456,6 +459,12 @@ def run_batch(ctx, fe, state, items):
                 the_app.set_interest_filter(H, lambda n, p, a: handler_log.append(('H', [bytes(x) for x in n])))
                 the_app.set_interest_filter(HS, lambda n, p, a: handler_log.append(('HS', [bytes(x) for x in n])))
         await asyncio.sleep(0)
+        BATCHES[0] += 1
+        if state == 'busy' and fe == 'v1' and BATCHES[0] % 2:
+            # the wall clock is set forwards by two hours while the bystanders are pending (their lifetime, one hour, is a duration:
+            # the waiting coroutines run on the loop's clock and have not timed out)
+            S.step_wall(7200)
+            ctx.event('batch-after-a-forward-step-of-the-wall-clock')
         for (kind, label, wire, mode) in items:
             try:
                 typ = rc.read_var(wire, 0, len(wire))[0]
@@ -795,12 +804,66 @@ def check_handler_table_states(ctx, rng):
                            f'valid Interests to handlers that edit the handler table from inside: a background task ended with an unhandled error: {le.get("repr")}', w)
 
 
+def check_slow_interest_validators(ctx, rng):
+    """A signed Interest whose validator is still busy when the InterestLifetime runs out (lifetime 100 ms, validator 300 ms): whatever
+    becomes of the Interest, no background task ends with an unhandled error; later Interests are handled normally."""
+    for fe in ('v2', 'v1'):
+        for L_, lat_ in ((100, 300), (10, 11), (100, 100), (50, 5000), (1, 2)):
+            res = {}
+
+            async def main(S):
+                face = RecFace()
+                the_app = appv2.NDNApp(face=face) if fe == 'v2' else appv1.NDNApp(face=face, keychain=KeychainDigest())
+                main_task = asyncio.ensure_future(the_app.main_loop())
+                await asyncio.sleep(0)
+                calls = []
+
+                async def v2(name, sig, c):
+                    await asyncio.sleep(lat_ / 1000.0)
+                    return types.ValidResult.PASS
+
+                async def v1(name, sig):
+                    await asyncio.sleep(lat_ / 1000.0)
+                    return True
+                if fe == 'v2':
+                    the_app.attach_handler(HS, lambda n, p, reply, c: calls.extend(bytes(x) for x in n), v2)
+                else:
+                    the_app.set_interest_filter(HS, lambda n, p, a: calls.extend(bytes(x) for x in n), v1)
+                for j in range(3):
+                    await face.deliver(bytes(make_interest(HS + [rc.comp(8, b'%d' % j)], InterestParam(nonce=j + 1, lifetime=L_), b'prm', DigestSha256Signer(for_interest=True))))
+                    await asyncio.sleep(0.004)
+                await asyncio.sleep(lat_ / 1000.0 + 0.2)
+                await face.deliver(bytes(make_interest(HS + [rc.comp(8, b'after')], InterestParam(nonce=9, lifetime=60000), b'prm', DigestSha256Signer(for_interest=True))))
+                await asyncio.sleep(lat_ / 1000.0 + 0.05)
+                res['calls'] = list(calls)
+                the_app.shutdown()
+                await asyncio.wait_for(main_task, 5)
+            S = vtime.run(main)
+            w = {'frontend': fe, 'interest_lifetime_ms': L_, 'validator_needs_ms': lat_}
+            ctx.case(('slow-interest-validator', fe, L_, lat_), nontrivial=True)
+            ctx.event('signed-interest-whose-validator-outlives-its-lifetime')
+            if S.result != 'ok':
+                ctx.report(f'slow-validator-scenario-{S.result}:{fe}', f'{S.error!r}', w)
+                continue
+            for le in S.sentinel.all():
+                ex = le.get('exception') or le.get('exc')
+                site = raising_site(ex) if ex is not None else ('?', '?')
+                ctx.report(f'background:{type(ex).__name__ if ex else "?"}@{site[0]}<-{fe}:validator-outlives-the-lifetime',
+                           f'a signed Interest whose validator needs longer than the InterestLifetime: a background task ended with an unhandled error: {le.get("repr")}', w)
+            if rc.comp(8, b'after') not in res.get('calls', []):
+                ctx.report(f'bystander-handler:{fe}:after-slow-validations', 'a later signed Interest (ample lifetime) did not reach its handler', w)
+
+
 def run(ctx):
     ctx.rule = RULE
     rng = ctx.rng
     check_framing(ctx, rng)
     check_robustness(ctx, rng)
     check_handler_table_states(ctx, rng)
+    if ctx.shard == 0:
+        check_slow_interest_validators(ctx, rng)
+    else:
+        ctx.event('signed-interest-whose-validator-outlives-its-lifetime', 0)
     if ctx.shard == 0:
         check_finished_window(ctx, rng)
     if ctx.shard == 0:
@@ -815,6 +878,8 @@ def run(ctx):
     ctx.need_event('framing-gap-eof-with-last')
     ctx.need_event('finished-window')
     ctx.need_event('bystander-by-hash-still-pending')
+    ctx.need_event('batch-after-a-forward-step-of-the-wall-clock')
+    ctx.need_event('signed-interest-whose-validator-outlives-its-lifetime')
     ctx.need_event('burst-to-table-editing-handlers')
     ctx.need_event('table-edited-inside-a-callback:detach-self')
     ctx.need_event('detach-while-a-validator-is-waiting')
